@@ -1,6 +1,236 @@
 import Driver.JsonIO
-open Lean
+import Driver.Loc
+import RulioModel.C13
+open Lean C13
 
-/-- model-side handler for cases whose "kind" starts with "c13." (stub until the property's slice lands) -/
+/-! Model side of kind "c13.run": one history on one location through the lock-aware wrapper model.
+Per op: the outcome class (ok / err / panic / hang / skip), the panic site, the value (same shapes as Driver/Loc),
+whether the model is sure about ok-versus-err (`sure`), and the lock state afterwards. -/
+
+namespace C13D
+
+def lockName : Lock → String | .free => "free" | .rdead => "rdead" | .wdead => "wdead"
+
+def containsDigit (s : String) : Bool := s.any Char.isDigit
+
+/-- is the model's verdict on `ttl` / `expires` the real one? (closed families of Fact.lean, or plainly invalid text) -/
+def expirySure (o : Obj) : Bool :=
+  (match o.get? "ttl" with
+   | some (.str s) => (parseDurationSecs s).isSome || !containsDigit s
+   | some (.num n) => n.natAbs < 1000000000
+   | _ => true) &&
+  (match o.get? "expires" with
+   | some (.str s) => (parseRFC3339 s).isSome || !containsDigit s
+   | some (.num n) => n.natAbs < 100000000000
+   | _ => true)
+
+def lower (s : String) : String := s.map Char.toLower
+
+/-- encoding/json matches struct fields case-insensitively: a key that only differs in case from a field is not modelled -/
+def keysExact (o : Obj) (fields : List String) : Bool :=
+  o.all (fun kv => fields.contains kv.1 || !(fields.map lower).contains (lower kv.1))
+
+partial def querySure : J → Bool
+  | .obj [] => true
+  | .obj q =>
+    if Obj.has q "code" then Obj.has q "verif_tmpl" || Obj.has q "verif_bad"
+    else if Obj.has q "pattern" then !(Obj.has q "locations" || Obj.has q "location")
+    else if Obj.has q "and" then (match Obj.get? q "and" with | some (.arr xs) => xs.all querySure | _ => true)
+    else if Obj.has q "or" then (match Obj.get? q "or" with | some (.arr xs) => xs.all querySure | _ => true)
+    else if Obj.has q "not" then (match Obj.get? q "not" with | some x => querySure x | _ => true)
+    else true
+  | _ => true
+
+def actionSure : J → Bool
+  | .obj a =>
+    keysExact a ["code", "endpoint", "subvars", "opts"] &&
+    !(Obj.has a "endpoint" || Obj.has a "subvars" || Obj.has a "opts") &&
+    (match Obj.get? a "code" with | some (.obj _) => false | _ => true)
+  | _ => true
+
+/-- is `ruleFromMap`'s verdict the real `RuleFromMap`'s? (only the fields the model looks at, spelled exactly) -/
+def ruleSure (r : Obj) : Bool :=
+  keysExact r ["id", "when", "schedule", "condition", "actions", "action", "policies", "once", "props", "expires"] &&
+  !(Obj.has r "id" || Obj.has r "once" || Obj.has r "props") &&
+  (match r.get? "when" with
+   | some (.obj w) => w.all (fun kv => kv.1 == "pattern")
+   | _ => true) &&
+  (match r.get? "condition" with | some q => querySure q | none => true) &&
+  (match r.get? "action" with | some a => actionSure a | none => true) &&
+  (match r.get? "actions" with | some (.arr xs) => xs.all actionSure | _ => true) &&
+  (match r.get? "policies" with
+   | none | some .null => true
+   | some (.obj p) => p.all (fun kv => kv.1 == "serialActions" && (match kv.2 with | .bool _ => true | _ => false))
+   | some _ => false) &&
+  expirySure r
+
+/-- through a System the cron hooks look at `rule.schedule`: only the two constants of the generators are modelled -/
+def hookSure (hooks : Bool) (fact : Obj) : Bool :=
+  !hooks ||
+  (match fact.get? "rule" with
+   | some (.obj r) => (match Obj.get? r "schedule" with
+     | some (.str s) => s == "" || s == validSchedule || s == "x"
+     | _ => true)
+   | _ => true)
+
+def out {α} (k : KLoc) (r : Res α) (f : α → Json) (sure : Bool) : Json :=
+  let base : List (String × Json) := [("cls", Json.str r.cls), ("sure", Json.bool sure), ("lock", Json.str (lockName k.lock))]
+  match r with
+  | .ok a => Json.mkObj (base ++ [("ok", f a)])
+  | .err e => Json.mkObj (base ++ [("err", Json.str e)])
+  | .panic s => Json.mkObj (base ++ [("err", Json.str "panic"), ("site", Json.str s.name)])
+  | .hang => Json.mkObj base
+
+def skip (k : KLoc) (why : String) : KLoc × Json :=
+  (k, Json.mkObj [("cls", Json.str "skip"), ("why", Json.str why), ("sure", Json.bool false), ("lock", Json.str (lockName k.lock))])
+
+/-- the document of an op as a map, depending on the way in: core skips non-maps, a System reads them as the nil map,
+the HTTP service answers 400 -/
+inductive Doc where | map (o : Obj) | skip (why : String) | reject
+
+def docOf (via : String) (op : Json) (key : String) : Doc :=
+  match J.ofJson (jget op key) with
+  | .error e => .skip ("model cannot read the document: " ++ e)
+  | .ok (.obj o) => .map o
+  | .ok _ => if via == "sys" then .map [] else if via == "http" then .reject else .skip "not a map"
+
+def treeOutJ (k : KLoc) (r : Res Tree) (sure : Bool) : Json :=
+  match r with
+  | .ok t =>
+    let cls := if t.err.isSome then "err" else "ok"
+    ((treeJ t).setObjVal! "cls" (Json.str cls)).setObjVal! "sure" (Json.bool sure) |>.setObjVal! "lock" (Json.str (lockName k.lock))
+  | r => out k r (fun _ => Json.null) sure
+
+/-- does the document put a rule body into the store whose later validation (FindCachedRules, trigger!) the model
+cannot judge? -/
+def storesUnsureRule (op : Json) : Bool :=
+  match jstr op "op" with
+  | "addFact" => (match J.ofJson (jget op "fact") with
+      | .ok (.obj f) => (match Obj.get? f "rule" with | some (.obj r) => !ruleSure r | _ => false)
+      | _ => false)
+  | "addRule" => (match J.ofJson (jget op "rule") with | .ok (.obj r) => !ruleSure r | _ => false)
+  | _ => false
+
+def stepOp (via : String) (k : KLoc) (op : Json) : KLoc × Json :=
+  let now := jint op "now"
+  let c : Ctx := { rk := jstr op "rk", wk := jstr op "wk" }
+  let id := jstr op "id"
+  let reject : KLoc × Json := (k, Json.mkObj [("cls", Json.str "err"), ("err", Json.str "param"), ("sure", Json.bool true), ("lock", Json.str (lockName k.lock))])
+  match jstr op "op" with
+  | "addFact" =>
+    (match docOf via op "fact" with
+     | .skip w => skip k w
+     | .reject => reject
+     | .map fact =>
+       let (k1, r) := kAddFact c id fact now k
+       (k1, out k1 r Json.str (expirySure fact && hookSure k.hooks fact && !(via != "core" && Obj.has fact "!created"))))
+  | "remFact" => let (k1, r) := kRemFact c id now k; (k1, out k1 r Json.str true)
+  | "getFact" => let (k1, r) := kGetFact c id now k; (k1, out k1 r objJ true)
+  | "search" =>
+    (match docOf via op "pattern" with
+     | .skip w => skip k w
+     | .reject => reject
+     | .map p =>
+       let (k1, r) := kSearchFacts c p (jbool op "inherited") now k
+       (k1, out k1 r foundJ true))
+  | "addRule" =>
+    (match docOf via op "rule" with
+     | .skip w => skip k w
+     | .reject => reject
+     | .map rule =>
+       let (k1, r) := kAddRule c id rule now k
+       (k1, out k1 r Json.str (ruleSure rule && hookSure k.hooks [("rule", .obj rule)])))
+  | "remRule" => let (k1, r) := kRemRule c id now k; (k1, out k1 r Json.str true)
+  | "getRule" => let (k1, r) := kGetRule c id now k; (k1, out k1 r objJ true)
+  | "enableRule" => let (k1, r) := kEnableRule c id (jbool op "enable") now k; (k1, out k1 r (fun _ => Json.bool true) true)
+  | "listRules" => let (k1, r) := kListRules c (jbool op "inherited") now k; (k1, out k1 r strsJ true)
+  | "searchRules" =>
+    (match docOf via op "event" with
+     | .skip w => skip k w
+     | .reject => reject
+     | .map ev =>
+       let (k1, r) := kSearchRules c ev (jbool op "inherited") now k
+       (k1, out k1 r (fun l => strsJ (l.map (·.1))) true))
+  | "query" =>
+    (match J.ofJson (jget op "query") with
+     | .error e => skip k ("model cannot read the document: " ++ e)
+     | .ok q =>
+       match q, via with
+       | .obj _, _ | _, "core" | _, "sys" =>
+         let (k1, r) := kQuery c q now k
+         (k1, out k1 r (fun bss => Json.arr (bss.map bsToJson).toArray) (querySure q))
+       | _, _ => reject)
+  | "event" =>
+    (match docOf via op "event" with
+     | .skip w => skip k w
+     | .reject => reject
+     | .map ev =>
+       let (k1, r) := kProcessEvent c ev now k
+       let sure := (match ev.get? "evaluate!" with | some (.obj m) => ruleSure m | _ => true)
+       (k1, treeOutJ k1 r sure))
+  | "sleep" => (k, Json.mkObj [("cls", Json.str "ok"), ("ok", Json.bool true), ("sure", Json.bool true), ("lock", Json.str (lockName k.lock))])
+  | "svc" =>
+    (match J.ofJson (jget op "m") with
+     | .ok (.obj m) => (k, out k (serviceFront m) (fun _ => Json.null) false)
+     | _ => skip k "not a map")
+  | "http" =>
+    -- the raw requests of the front-end witnesses
+    let body := jstr op "body"
+    let bodyObj : Option Obj := match Json.parse body with
+      | .ok j => (match J.ofJson j with | .ok (.obj o) => some o | _ => none)
+      | .error _ => none
+    let path := jstr op "path"
+    let params : List (String × String) :=
+      match path.splitOn "?" with
+      | [_, q] => (q.splitOn "&").filterMap (fun kv => match kv.splitOn "=" with
+          | [a, b] => if ["fact", "rule", "pattern", "event", "query"].contains a then some (a, b) else none
+          | _ => none)
+      | _ => []
+    let r := httpFront { method := jstr op "method", jsonParams := params, body := body, bodyObj := bodyObj }
+    (k, out k r (fun _ => Json.null) false)
+  | o => skip k ("unknown op " ++ o)
+
+def runWith (c : Json) (tbl : List C13Gen.LockUse) : List Json :=
+  let kind := if jstr c "state" == "linear" then Kind.linear else Kind.indexed
+  let via := if jstr c "via" == "" then "core" else jstr c "via"
+  let k0 : KLoc := { loc := { name := "a", st := { kind := kind } }, hooks := via != "core", locks := tbl }
+  let (_, _, outs) := (jarr c "ops").foldl (fun (acc : KLoc × Bool × List Json) op =>
+    let (k, o) := stepOp via acc.1 op
+    let unsureStore := acc.2.1 || storesUnsureRule op
+    -- rule bodies in the store are validated again by later events and rule searches
+    let o := if acc.2.1 && ["event", "searchRules"].contains (jstr op "op") then o.setObjVal! "sure" (Json.bool false) else o
+    (k, unsureStore, acc.2.2 ++ [o])) (k0, false, [])
+  outs
+
+/-- `outs`: under the lock discipline of the current source; `accCls`: the outcome classes under the accounted
+(hand-written) lock table, which differ exactly when a lock acquisition or a `defer` changed -/
+def handle (c : Json) : Json :=
+  let outs := runWith c C13Gen.lockUses
+  let acc := runWith c lockTable
+  Json.mkObj [("outs", Json.arr outs.toArray), ("accCls", Json.arr (acc.map (fun o => jget o "cls")).toArray)]
+
+/-- the classified table, for the check's diagnosis when `asserts_accounted` breaks -/
+def tables : Json :=
+  let clsJ : Cls → Json
+    | .safe w => Json.mkObj [("cls", Json.str "safe"), ("why", Json.str w)]
+    | .modelled s => Json.mkObj [("cls", Json.str "modelled"), ("site", Json.str s.name)]
+    | .unreachable w => Json.mkObj [("cls", Json.str "unreachable"), ("why", Json.str w)]
+    | .outOfScope w => Json.mkObj [("cls", Json.str "outOfScope"), ("why", Json.str w)]
+  let siteJ (s : C13Gen.Site) : List (String × Json) :=
+    [("file", Json.str s.file), ("func", Json.str s.func), ("kind", Json.str s.kind), ("expr", Json.str s.expr)]
+  let lockJ (u : C13Gen.LockUse) : Json :=
+    Json.mkObj [("file", Json.str u.file), ("func", Json.str u.func), ("lock", Json.str u.lock), ("deferred", Json.bool u.deferred)]
+  Json.mkObj [
+    ("accounted", Json.arr (accounted.map (fun (s, c) => Json.mkObj (siteJ s ++ [("class", clsJ c)]))).toArray),
+    ("generated", Json.arr (C13Gen.sites.map (fun s => Json.mkObj (siteJ s))).toArray),
+    ("lockTable", Json.arr (lockTable.map lockJ).toArray),
+    ("lockUses", Json.arr (C13Gen.lockUses.map lockJ).toArray)]
+
+end C13D
+
+/-- model-side handler for cases whose "kind" starts with "c13." -/
 def handleC13 (kind : String) (c : Json) : Json :=
-  Json.mkObj [("err", Json.str ("unknown kind " ++ kind))]
+  match kind with
+  | "c13.run" => C13D.handle c
+  | "c13.tables" => C13D.tables
+  | _ => Json.mkObj [("err", Json.str ("unknown kind " ++ kind))]
